@@ -1,10 +1,66 @@
 """C12 — concurrent readers never observe wrapped or impossible aggregates."""
 from . import conc
 from .concprop import *
+from .c03 import CoqJudges
+
+# The statement handed to the extracted Coq judge (Spec/ConcJudges.v: range_b <=> RangeOK; Properties/Tie.v
+# Tie_judge_range, Tie_judge_range_sound / _so_far from C12_every_prefix / C12_counters_bounded): one per run, one row
+# per scheduled step: quantity and orders supplied so far, then the three aggregates the scheduler read after the step.
+CJ = CoqJudges({"range": "every aggregate and visible + hidden within [0, supplied so far] after every step, range_b"})
+
+
+def rows(rec, prog, info):
+    """[(supplied quantity, supplied orders, visible, hidden, count)] per step; "supplied so far" exactly as
+    conc.judge_range counts it: everything the set-up ever added (and the new quantities of its amendments) plus the
+    quantity / order of every call that has begun before the step."""
+    s = sum(conc.total(st[4:]) for st in prog["setup"] if st.startswith("ADD "))
+    for st in prog["setup"]:
+        if st.startswith("UPD UQ:"):
+            s += int(st.split(":")[-1])
+    n = sum(1 for st in prog["setup"] if st.startswith("ADD "))
+    begun = sorted(info["calls"].values(), key=lambda c: c["begin"])
+    out, j = [], 0
+    for i, (cv, ch, cc) in enumerate(info["snaps"]):
+        while j < len(begun) and begun[j]["begin"] <= i:
+            op = begun[j]["op"]
+            if op.startswith("ADD "):
+                s += conc.total(op[4:])
+                n += 1
+            elif op.startswith("UPD UQ:"):
+                s += int(op.split(":")[-1])
+            elif op.startswith("UPD RP:") or op.startswith("UPD UPQ:"):
+                s += int(op.split(":")[3])
+            j += 1
+        out.append((s, n, cv, ch, cc))
+    return out
+
+
+def range_stmt_ok(rs):
+    """python restatement of RangeOK (Spec/ConcJudges.v) on the rows of one run"""
+    return all(0 <= cv <= s and 0 <= ch <= s and cv + ch <= s and 0 <= cc <= n for (s, n, cv, ch, cc) in rs)
+
+
+def judge_range(rec, prog, info):
+    """conc.judge_range AND the extracted range_b on the same observations: the run fails if either rejects."""
+    py = conc.judge_range(rec, prog, info)
+    rs = rows(rec, prog, info)
+    v = CJ.judge("range", "range " + " ".join("%d/%d/%d/%d/%d" % r for r in rs), range_stmt_ok(rs), rec, prog)
+    if py:
+        return py
+    if v is None:
+        return "the extracted judge range_b could not read the observations of this run"
+    if not v:
+        bad = [(i, r) for i, r in enumerate(rs) if not range_stmt_ok([r])]
+        if bad:
+            i, (s, n, cv, ch, cc) = bad[0]
+            return ("extracted judge range_b rejects: after step %d a reader sees (visible %d, hidden %d, count %d), visible + hidden = %d; "
+                    "supplied so far: quantity %d, orders %d" % (i, cv, ch, cc, cv + ch, s, n))
+        return "extracted judge range_b rejects the observations of this run (the python restatement accepts them)"
+    return None
 
 
 def run(tier, seed, replay=None):
     return run_conc_property(
         "C12", tier, seed, replay,
-        judges=[("aggregate range after every step", conc.judge_range)],
-        n_quick=2500, n_thorough=60000, flags="mode=O")
+        judges=[("aggregate range after every step", judge_range)],
+        n_quick=2500, n_thorough=60000, flags="mode=O", extra_obligations=CJ.obligations)
